@@ -140,7 +140,10 @@ def check(case):
     n = len(vers) - 1
     purge_app = case.get('purge_app')
     if purge_app:
-        if purge_app not in vers[0]['spec']['apps'] or len(vers[0]['apps']) < 2:
+        dangling = any(f['target'] and f['target'][0] == purge_app
+                       for a, _n, m in S.iter_models(vers[n]['spec']) if a != purge_app
+                       for f in m['fields'])
+        if dangling or purge_app not in vers[0]['spec']['apps'] or len(vers[0]['apps']) < 2:
             out['rejected'] = 'no_app_to_purge'
             out['evaluations'] = 1
             return out
